@@ -374,6 +374,8 @@ def _build_corpus():
   add("tcp_sack_last", _eip(6, _tcp(
       b"\x01\x01\x05\x0a" + struct.pack("!II", 100, 200), b"")),
       "ethernet/ipv4/tcp")
+  add("tcp_unknown_opts_full", _eip(6, _tcp(bytes([99, 4, 1, 2]) * 10)),
+      "ethernet/ipv4/tcp")
   add("tcp_eol_unknown", _eip(6, _tcp(b"\x22\x06\xaa\xbb\xcc\xdd\x01\x00")),
       "ethernet/ipv4/tcp")
   add("tcp_mp_capable", _eip(6, _tcp(
